@@ -95,7 +95,9 @@ Proposals(S, o, rem, pv, loc) ==
        ELSE IF cfg.alg = "plan" THEN PlanProposals(S, o, R, sched)
        ELSE IF cfg.alg = "greedy" THEN GreedyProposals(S, o, R, sched)
        ELSE IF loc.left < cfg.advRounds THEN AdvProposals(S, o, rem, sched)
-       ELSE HandOut(R, S.cl.avail, EmptyFn)
+       ELSE (* the harness adversary's cooperative fallback: ready tasks in plan order on free machines *)
+            LET n == MinI(Cardinality(R), Cardinality(S.cl.avail))
+            IN {f \in UNION {Injection(Rs, S.cl.avail) : Rs \in kSubset(n, R)} : TRUE}
 
 (* ---- _process_current_schedule ----------------------------------------- *)
 Busy(S, m) == m \in S.cl.occ \cup S.cl.ingest
